@@ -149,3 +149,82 @@ Proof.
   specialize (H Hf).
   destruct (dec_frames _ si 0 (allb ++ firstn m gb) []) as [out e]. destruct H as [-> He]. cbn [rev app]. auto.
 Qed.
+
+(* ---- C02 at file level: the strict stream validator (spec_stream: tag, STREAMINFO, every frame parses with valid
+   CRCs, is well-formed and RFC-valid, re-serialises to the very bytes it was parsed from, fixed-blocksize strategy
+   with frame numbers 0,1,2,..., advertised block size on every frame but the last, no block under 16 samples
+   except the last, totals consistent) accepts every file the encoder model writes, and yields the blocks ---- *)
+Fixpoint full_but_last (si : streaminfo) (blocks : list (list (list Z))) : Prop :=
+  match blocks with
+  | [] => True
+  | b :: rest => (rest = [] \/ block_len b = si_max_bs si) /\ full_but_last si rest
+  end.
+
+Lemma combine_self_prefix : forall (x y : list N), forallb (fun p => fst p =? snd p) (combine x (x ++ y)) = true.
+Proof. induction x as [|a x IH]; intros y; cbn [combine app forallb fst snd]; [reflexivity|]. rewrite N.eqb_refl. apply IH. Qed.
+
+Lemma fold_left_block_sum : forall (frames : list (list (list Z))) a,
+  fold_left (fun a fr => a + match fr with c :: _ => N.of_nat (length c) | [] => 0 end) frames a = a + blocks_samples frames.
+Proof.
+  induction frames as [|b l IH]; intros a; cbn [fold_left blocks_samples fold_right]; [lia|].
+  fold (blocks_samples l). rewrite IH. unfold block_len. lia.
+Qed.
+
+Lemma spec_frames_enc o L si : 16 <= si_max_bs si -> forall blocks k bytes fuel acc,
+  enc_blocks o L (si_rate si) (si_bps si) k blocks = Some bytes ->
+  Forall (block_ok si (si_bps si)) blocks ->
+  k + N.of_nat (length blocks) <= MAX_FRAME_NUMBER + 1 ->
+  full_but_last si blocks -> (length bytes < fuel)%nat ->
+  spec_frames fuel si k bytes acc = Ok (rev acc ++ blocks).
+Proof.
+  intros H16. induction blocks as [|b blocks IH]; intros k bytes fuel acc He Hall Hk Hfull Hfuel.
+  - cbn in He. injection He as <-. destruct fuel as [|fuel]; [lia|]. cbn [spec_frames]. rewrite app_nil_r. reflexivity.
+  - cbn [enc_blocks] in He.
+    destruct (enc_frame_bytes o L (si_rate si) (si_bps si) k b) as [x|] eqn:Ex; [|discriminate].
+    destruct (enc_blocks o L (si_rate si) (si_bps si) (k + 1) blocks) as [y|] eqn:Ey; [|discriminate]. injection He as <-.
+    apply Forall_cons_iff in Hall. destruct Hall as [Hb Hrest]. cbn [length] in Hk. destruct Hfull as [Hf1 Hf2].
+    pose proof (frame_bytes_len _ _ _ _ _ _ _ Ex) as Lx.
+    destruct fuel as [|fuel]; [lia|]. cbn [spec_frames].
+    destruct (x ++ y) as [|b0 t] eqn:Exy; [destruct x; cbn in *; [lia|discriminate]|]. rewrite <- Exy.
+    unfold enc_frame_bytes in Ex. destruct (enc_frame o L (si_rate si) (si_bps si) k b) as [f|] eqn:Ef; [|discriminate].
+    destruct (enc_frame_ok o L si _ _ k b f Ef Hb eq_refl ltac:(lia)) as (Hwf & Hsp & Hsem & Hnum & Hbs).
+    rewrite (frame_roundtrip (Some si) f x y Hwf Ex). cbn [bind]. rewrite Hwf, Hsp. cbn [andb negb].
+    rewrite Ex, app_length, Nat.eqb_refl, combine_self_prefix. cbn [andb negb].
+    assert (Hvar : h_variable (f_hdr f) = false).
+    { unfold enc_frame in Ef. destruct (code_of_rate (si_rate si)); [|discriminate]. destruct b; [discriminate|].
+      cbv zeta in Ef. injection Ef as <-. reflexivity. }
+    rewrite Hvar, Hnum, N.eqb_refl. cbn [negb].
+    assert (Hbs_le : block_len b <= si_max_bs si).
+    { destruct Hb as (Hch & _ & _ & _ & _ & n & _ & _ & Hn3 & Hc). destruct b as [|c0 b']; [cbn in Hch; lia|].
+      inversion Hc as [|? ? [A _] _]. cbn [block_len]. lia. }
+    assert (Hy : blocks = [] -> y = []) by (intros ->; cbn in Ey; congruence).
+    assert (C1 : (h_bs (f_hdr f) =? si_max_bs si) || match y with [] => h_bs (f_hdr f) <=? si_max_bs si | _ => false end = true).
+    { rewrite Hbs. destruct Hf1 as [E|E].
+      - rewrite (Hy E). destruct (N.leb_spec (block_len b) (si_max_bs si)); [apply Bool.orb_true_r|lia].
+      - rewrite E, N.eqb_refl. reflexivity. }
+    assert (C2 : (16 <=? h_bs (f_hdr f)) || match y with [] => true | _ => false end = true).
+    { rewrite Hbs. destruct Hf1 as [E|E].
+      - rewrite (Hy E). apply Bool.orb_true_r.
+      - rewrite E. destruct (N.leb_spec 16 (si_max_bs si)); [reflexivity|lia]. }
+    rewrite C1, C2. cbn [negb].
+    rewrite (IH (k + 1) y fuel (sem_frame f :: acc) Ey Hrest ltac:(lia) Hf2).
+    + cbn [rev]. rewrite <- app_assoc, Hsem. reflexivity.
+    + rewrite <- Exy, app_length in Hfuel. lia.
+Qed.
+
+Theorem enc_file_spec_valid o L si others blocks bytes :
+  enc_blocks o L (si_rate si) (si_bps si) 0 blocks = Some bytes ->
+  si_ok si -> blocks_ok others ->
+  Forall (block_ok si (si_bps si)) blocks ->
+  N.of_nat (length blocks) <= MAX_FRAME_NUMBER + 1 ->
+  full_but_last si blocks ->
+  16 <= si_min_bs si -> si_min_bs si <= si_max_bs si ->
+  (si_total si = 0 \/ blocks_samples blocks = si_total si) ->
+  spec_stream (file_of si others bytes) = Ok (si, blocks).
+Proof.
+  intros He Hsi Hok Hall Hk Hfull Hmin Hmm Ht. unfold spec_stream. rewrite (read_file_metadata si others bytes Hsi Hok).
+  rewrite (spec_frames_enc o L si ltac:(lia) blocks 0 bytes (S (length bytes)) [] He Hall ltac:(lia) Hfull ltac:(lia)).
+  cbn [rev app bind]. rewrite fold_left_block_sum, N.add_0_l.
+  destruct (N.leb_spec 16 (si_min_bs si)); [|lia]. destruct (N.leb_spec (si_min_bs si) (si_max_bs si)); [|lia]. cbn [andb negb].
+  destruct Ht as [Ht|Ht]; [rewrite Ht; reflexivity|]. rewrite Ht, N.eqb_refl, Bool.orb_true_r. reflexivity.
+Qed.
